@@ -52,6 +52,8 @@ DynTemplates ==
     \* two labels (one from the iterator, one constant), for the two-label map / object specs
     \cup {DDyn("q", "", c, <<IV("q", "key"), StrLit("w")>>, b) : c \in {NVar("m"), NVar("ls")},
                                                                   b \in {<<DAttr("a", IV("q", "value"))>>, <<>>}}
+    \* a CUSTOM iterator whose key is the label
+    \cup {DDyn("q", "it", c, <<IV("it", "key")>>, <<DAttr("a", IV("it", "value"))>>) : c \in {NVar("m"), NVar("ls")}}
     \* ... and two constant labels (still well defined when the for_each collection is unknown)
     \cup {DDyn("q", "", c, <<StrLit("x"), StrLit("w")>>, <<DAttr("a", IV("q", "value"))>>) : c \in {NVar("m"), NVar("ls")}}
 
